@@ -62,7 +62,56 @@ fn binary_block(r: &mut Rng, out: &mut String, all: bool) {
     }
 }
 
+/// many partitions on one side (70..220 with one or two values each), very few on the other: partition counts that
+/// differ by more than 64x; the small side's partitions are shared / absent / beyond the big side's, first, middle, last
+fn many_partitions_case(r: &mut Rng, out: &mut String) {
+    let n = r.range(70, 220);
+    let p0 = *r.pick(&[0u64, 1, 1, 5, 0xFFFF_FFFF - n]);
+    let mut big = String::new();
+    let mut firsts: Vec<u64> = Vec::new();
+    for i in 0..n {
+        let pk = (p0 + i) << 32;
+        let v = pk + *r.pick(&[0u64, 1, 65535, 65536, P32 - 1]);
+        write!(big, " {}", v).unwrap();
+        firsts.push(v);
+        if r.chance(1, 4) {
+            write!(big, " {}", pk + 7).unwrap();
+        }
+    }
+    let nsmall = r.range(1, 3);
+    let mut small = String::new();
+    // at least one shared value
+    write!(small, " {}", firsts[r.below(n) as usize]).unwrap();
+    for _ in 0..nsmall {
+        let i = match r.below(4) {
+            0 => 0,
+            1 => n - 1,
+            _ => r.below(n),
+        } as usize;
+        match r.below(4) {
+            0 | 1 => write!(small, " {}", firsts[i]).unwrap(),                    // shared value
+            2 => write!(small, " {}", ((p0 + i as u64) << 32) + 9).unwrap(),      // shared partition, other value
+            _ => write!(small, " {}", ((p0 + n).min(0xFFFF_FFFF) << 32) + 3).unwrap(), // a partition the big side lacks
+        }
+    }
+    if r.chance(1, 2) && p0 > 0 {
+        write!(small, " {}", ((p0 - 1) << 32) + 1).unwrap(); // a left-only partition BEFORE the shared ones
+    }
+    let (l, rr) = if r.chance(1, 2) { ("t0", "t1") } else { ("t1", "t0") };
+    writeln!(out, "tfrom_iter {}{}", l, big).unwrap();
+    writeln!(out, "tfrom_iter {}{}", rr, small).unwrap();
+    writeln!(out, "tdump t0").unwrap();
+    writeln!(out, "tdump t1").unwrap();
+    binary_block(r, out, true);
+    writeln!(out, "tmulti {} {} t2 t0 t1 t0", *r.pick(&["or", "and", "sub", "xor"]), *r.pick(&["own", "ref"])).unwrap();
+    writeln!(out, "tdump t2").unwrap();
+}
+
 pub fn gen_case(r: &mut Rng, out: &mut String) {
+    if r.chance(1, 12) {
+        many_partitions_case(r, out);
+        return;
+    }
     let c = Ctx::new(r);
     let big = r.chance(1, 12);
     let max_len = if big { 70000 } else { 5000 };
